@@ -305,7 +305,8 @@ func TestC08Blocks(t *testing.T) {
 		check(qf.Slice(n/3, n/3+9), "Slice(n/3, n/3+9)", n/3, n/3+9)
 		check(qf.Slice(n-3, n), "Slice(n-3, n)", n-3, n)
 		check(qf.Slice(7, 8).Copy("ci", "ci"), "Slice(7,8)+Copy", 7, 8)
-		check(qf.Slice(1, n).Slice(n/2, n/2+100), "Slice(1,n).Slice(n/2, n/2+100)", n/2+1, n/2+101)
+		w := (n - 1) / 4
+		check(qf.Slice(1, n).Slice(n/2, n/2+w), "Slice(1,n).Slice(n/2, n/2+(n-1)/4)", n/2+1, n/2+1+w)
 	}
 	evC08New.CaseHash(true, 0x424c4f43, func() string {
 		return fmt.Sprintf("block sizes: constant columns of %v rows through New, Slice, Copy, Select (%d frames read back)", blockSizes(), runs)
